@@ -31,6 +31,7 @@ META = {
 }
 RESULTS = ("auto/ragged", "cross/ragged", "auto/equalK", "cross/equalK", "auto/single", "cross/single", "cross/LminN", "auto/LminN",
            "auto/singlefres", "cross/singlefres", "cross/delayed")
+BIG = ("auto/manybins", "cross/manybins")   # relation table only (1600 bins)
 
 
 def make_raw(kind, seed=0):
@@ -50,6 +51,10 @@ def make_raw(kind, seed=0):
         kw.update(Lmin=N)
     if shape == "delayed":
         kw.update(Lmin=64, Jdes=40)
+    if shape == "manybins":
+        N = 4096
+        x, y = ana.data_for(mode if mode == "auto" else "cross", N, "id1", "id3", seed)
+        kw.update(Jdes=6000, Kdes=1, olap=0.0)
     an = ana.make_analyzer(ana.as_input(x, y), fs, **kw)
     if shape == "single":
         r = an.compute_single_bin(0.7, L=16)
@@ -72,6 +77,8 @@ def fresh(raw):
 
 def shards(tier, seed):
     out = []
+    for k in BIG:
+        out.append({"part": "relations", "result": k, "seed": seed})
     for k in RESULTS:
         out.append({"part": "relations", "result": k, "seed": seed})
         depth = 2
